@@ -37,7 +37,9 @@ def _work(job):
     kind, name, timeout_ms, second = job[:4]
     if kind == 'fn':
         from pyvc import driver
-        return driver.verify_and_discharge(name, variant_index=job[4], timeout_ms=timeout_ms, second_opinion=second)
+        start = job[5] if len(job) > 5 else None
+        return driver.verify_and_discharge(name, variant_index=job[4], timeout_ms=timeout_ms, second_opinion=second,
+                                           start=start, split_at=None if start is not None else 10)
     from pyvc import ground
     return ground.run(name)
 
@@ -112,6 +114,13 @@ def main(argv=None):
         return 2
     with mp.get_context('fork').Pool(min(args.jobs, len(jobs))) as pool:
         results = pool.map(_work, jobs, chunksize=1)
+        # second wave: big functions hand back their pending decision prefixes; spread them
+        wave = []
+        for job, r in zip(jobs, results):
+            for vi, prefix in r.get('pending', []) if job[0] == 'fn' else []:
+                wave.append(('fn', job[1], job[2], job[3], vi, [prefix]))
+        if wave:
+            results += pool.map(_work, wave, chunksize=1)
 
     obligations, faults, undecided, functions, assumed = [], [], [], [], set()
     merged = {}
@@ -126,14 +135,20 @@ def main(argv=None):
             faults.append('%s: %s' % (r['qual'], r['error'].splitlines()[0]))
             sys.stderr.write(r['error'] + '\n')
         fn = dict(name=r['qual'], source=r.get('source'), wall_s=r.get('wall_s'), variants=[])
+        agg = {}
         for i in r.get('infos', []):
-            fn['variants'].append(dict(variant=i['variant'], paths=i['paths'], feasible_paths=i['feasible_paths'],
-                                       cut_at_invariants=i['cut'], yields=i['yields'], loops=i['loops']))
+            a = agg.setdefault(i['variant'], dict(variant=i['variant'], paths=0, feasible_paths=0, cut_at_invariants=0,
+                                                  yields=i['yields'], loops=i['loops']))
+            a['paths'] += i['paths']
+            a['feasible_paths'] += i['feasible_paths']
+            a['cut_at_invariants'] += i['cut']
             assumed |= set(i['assumed'])
             for u in i['unsupported']:
                 undecided.append('%s: %s' % (r['qual'], u))
-            if i['feasible_paths'] == 0:
-                undecided.append('%s%s: no feasible path reaches the end of the function (vacuous contract?)' % (r['qual'], i['variant'] and '#' + i['variant']))
+        for a in agg.values():
+            fn['variants'].append(a)
+            if a['feasible_paths'] == 0:
+                undecided.append('%s%s: no feasible path reaches the end of the function (vacuous contract?)' % (r['qual'], a['variant'] and '#' + a['variant']))
         ncan = 0
         for o in r.get('obligations', []):
             if 'canary' in o['tags']:
